@@ -48,6 +48,12 @@ def generate(seed, tier):
         for _ in range(r.randint(1, 2)):
             sc['ops'].append({'t': round(r.uniform(0.95, sc['until']), 3), 'op': 'kerr', 'node': r.choice('AB'), 'nth': r.randint(1, 4),
                               'errno': r.choice(['ENOMEM', 'EINVAL', 'ENOBUFS', 'EEXIST'])})
+    if r.random() < 0.12:
+        # the kernel refuses one of the requests of B's start-up (flush of SPD / SAD, one of the NEWPOLICYs): "kernel errors surface as
+        # errors" - a daemon that goes on into its event loop has treated the refusal as a success
+        tb = next(o_['t'] for o_ in sc['ops'] if o_['op'] == 'start' and o_['node'] == 'B')
+        sc['ops'].insert(0, {'t': tb, 'op': 'kerr_boot', 'node': 'B', 'nth': r.randint(1, 2 + 9), 'errno': r.choice(['ENOMEM', 'EINVAL', 'EEXIST', 'EPERM'])})
+        sc['meta']['kerr_boot'] = True
     sc['ops'].sort(key=lambda x: x['t'])
     if r.random() < 0.2:
         # a peer that proposes, for a new or rekeyed CHILD_SA, an SPI it already uses with us: the kernel refuses the duplicate with a
@@ -291,6 +297,36 @@ def run(scenario):
                         ctx['spi_pairs'][bytes(c.inbound_spi)] = bytes(c.outbound_spi)
                         ctx['spi_pairs'][bytes(c.outbound_spi)] = bytes(c.inbound_spi)
         w.monitors.append(ExpireLog())
+
+        class BootRefusal:
+            """A request of the start-up (flush, NEWPOLICY) that the kernel refused: the daemon must not carry on as if it had been done."""
+            def __init__(self):
+                self.mark = {}
+                self.done = set()
+
+            def before_step(self, node, cause):
+                if (cause[0] if isinstance(cause, tuple) else cause) == 'start':
+                    self.mark[node.name] = (node.incarnation, node.kernel.req_no)
+
+            def after_step(self, node, cause):
+                inc, first = self.mark.get(node.name, (None, 0))
+                if inc != node.incarnation or (node.name, inc) in self.done:
+                    return
+                if node.state == 'running' and not node.exited and node.control is not None:
+                    self.done.add((node.name, inc))
+                    for r_ in node.kernel.requests:
+                        if r_['no'] > first and r_['errno'] and r_['type'] in (K['XFRM_MSG_NEWPOLICY'], K['XFRM_MSG_FLUSHPOLICY'], K['XFRM_MSG_FLUSHSA']):
+                            name = {K['XFRM_MSG_NEWPOLICY']: 'NEWPOLICY', K['XFRM_MSG_FLUSHPOLICY']: 'FLUSHPOLICY'}.get(r_['type'], 'FLUSHSA')
+                            w.violation(PROP, 'kernel_error_treated_as_success', {'errno': r_['errno'], 'request': name},
+                                        f'{node.name}: the kernel refused the {name} of the start-up (request {r_["no"] - first}) with errno '
+                                        f'{r_["errno"]}, and the daemon went on into its event loop')
+                            w.poisoned = True
+                            return
+                elif node.exited or node.state != 'running':
+                    if any(r_['no'] > first and r_['errno'] for r_ in node.kernel.requests):
+                        ctx['reach']['boot_refusal_surfaced'] = ctx['reach'].get('boot_refusal_surfaced', 0) + 1
+                        self.done.add((node.name, inc))
+        w.monitors.append(BootRefusal())
 
         class DelsaOfTracked:
             """'Says what was meant': the daemon removes an SA from the kernel when it has stopped (or is stopping) using it.  A DELSA the
